@@ -317,8 +317,17 @@ def run_mutants(prop, binary, wd, out, inputs, env, known, jobs=vlib.NCPU):
             st["classes"] = dict(("mutants:" + k[5:] if k.startswith("fuzz:") else k, v) for k, v in st.get("classes", {}).items())
             out.merge_stats(st)
     seen = {}
+    triaged = 0
     for f in sorted(failing, key=os.path.getsize):
-        runs3 = [v_fuzz.run_input(binary, f, wd, known=known, tag="mc%d" % k, extra_env=env) for k in range(3)]
+        # first isolated run: same signature as a confirmed failure = duplicate, not re-run (many mutants hit one defect)
+        s1, o1 = v_fuzz.run_input(binary, f, wd, known=known, tag="mc0", extra_env=env)
+        if s1 != "pass" and ("hang: " if s1 == "hang" else "") + v_fuzz.signature(o1) in seen:
+            continue
+        triaged += 1
+        if triaged > 12:
+            out.notes.append("mutant stream: %d failing inputs, triage stopped after 12" % len(failing))
+            break
+        runs3 = [(s1, o1)] + [v_fuzz.run_input(binary, f, wd, known=known, tag="mc%d" % k, extra_env=env) for k in (1, 2)]
         if not all(s != "pass" for s, _ in runs3):
             out.notes.append("mutant input %s failed in the batch but not 3x in isolation %s" % (os.path.basename(f), [s for s, _ in runs3]))
             continue
